@@ -118,6 +118,17 @@ class RefCaches:
             self._fut[h] = ("response",)
         return v
 
+    def _on_query(self, ident: int, t: float, has: bool, got, ctor_refused: bool) -> list:  # noqa: ANN001
+        """A look-up made from inside a callback: it must see the table as the statement implies it at that moment."""
+        h = self.holder(ident)
+        want = "outstanding" if h is not None else "free"
+        if has != (h is not None) or got != h or ctor_refused != (h is not None):
+            return [(f"callback-sees-table|want:{want}",
+                     f"inside on_timeout at t={t}: has()={has}, get()={'slot %s' % got if got is not None else None}, "
+                     f"constructor {'refused' if ctor_refused else 'accepted'}, but identity {ident} is {want} "
+                     f"({self.describe(ident)})")]
+        return []
+
     def _on_timeout(self, s: int, t: float) -> list:
         v = []
         st = self._state[s]
